@@ -379,6 +379,13 @@ theorem stepB_norm_map (c : Cfg) (k : Nat) (hk : c.critical k = false) (st : StB
     all_goals first
       | (apply exitLoop_congr c k _ _ _ _ _ _ _ ‹_›; simp [norm_eq_iff])
       | simp [norm_eq_iff, *]
+  case orchFail s =>
+    stepA_split c k st.a (.react s true (liveChildren c st.a s))
+    all_goals repeat' split
+    all_goals simp only [Option.map_some, Option.map_none, Option.some.injEq]
+    all_goals first
+      | (apply exitLoop_congr c k _ _ _ _ _ _ _ ‹_›; simp [norm_eq_iff])
+      | simp [norm_eq_iff, *]
   case tidyReturn s pick => fin
   case hStep j => fin
   case hEnd j => fin
